@@ -22,7 +22,7 @@ PROP = "C04"
 LEVEL = "exploration"
 RULE = (
     "strings: every sequence of <=3 atoms (quick and thorough; thorough adds every string of exactly 4 atoms at the assignment and list-item sites, 31.5M round trips, and an index-sampled slice of length 4 at the other sites) over "
-    "a 63-atom alphabet with one representative per lexer class, placed at 12 (position,key) sites "
+    "a 63-atom alphabet with one representative per lexer class, placed at 13 (position,key) sites "
     "(assignment with and without YAML frontmatter/META/nested META/list of 1,2,3 items/inline-map value x keys K,PATTERN,REGEX); plus Hypothesis "
     "text<=60, near-bare strings (1-2 edits away from annotation/expression/variable/version shapes), ints, finite floats, bools, None; plus octave_write(changes/mutations) then read of the file. "
     "Oracle: parse(emit(doc)) returns the same value with the same type (str after NFC) and the sentinel neighbour "
@@ -45,7 +45,7 @@ ATOMS = [
 ]
 SITES = [
     ("fm_assign", "K"), ("assign", "K"), ("assign", "PATTERN"), ("assign", "REGEX"), ("meta", "K"), ("metanested", "K"),
-    ("list1", ""), ("list2", ""), ("list3", ""), ("pair", "K"), ("pair", "PATTERN"), ("pair", "REGEX"),
+    ("list1", ""), ("list2", ""), ("list3", ""), ("pair", "K"), ("pair", "PATTERN"), ("pair", "REGEX"), ("pair1", "K"),
 ]
 SENT = "zzsentinel"
 
@@ -77,6 +77,8 @@ def build(site, key, v):
         doc.sections = [Assignment(key="L", value=ListValue(items=[v, SENT])), Assignment(key="Z", value=SENT)]
     elif site == "list3":
         doc.sections = [Assignment(key="L", value=ListValue(items=[SENT, v, SENT])), Assignment(key="Z", value=SENT)]
+    elif site == "pair1":  # the pair is the only item of its list
+        doc.sections = [Assignment(key="L", value=ListValue(items=[InlineMap(pairs={key: v})])), Assignment(key="Z", value=SENT)]
     elif site == "pair":
         doc.sections = [
             Assignment(key="L", value=ListValue(items=[InlineMap(pairs={key: v}), SENT])),
@@ -126,7 +128,7 @@ def extract(site, key, doc2):
     lv = s[0].value
     if not isinstance(lv, ListValue):
         raise Mismatch(f"list read back as {type(lv).__name__}: {lv!r}"[:300])
-    n = {"list1": 1, "list2": 2, "list3": 3, "pair": 2}[site]
+    n = {"list1": 1, "list2": 2, "list3": 3, "pair": 2, "pair1": 1}[site]
     if len(lv.items) != n:
         raise Mismatch(f"list has {len(lv.items)} items, expected {n}: {lv.items!r}"[:300])
     if site == "list1":
@@ -138,7 +140,7 @@ def extract(site, key, doc2):
     im = lv.items[0]
     if not isinstance(im, InlineMap) or list(im.pairs.keys()) != [key]:
         raise Mismatch(f"pair read back as {im!r}"[:300])
-    return im.pairs[key], lv.items[1] == SENT and last_ok(s)
+    return im.pairs[key], (site == "pair1" or lv.items[1] == SENT) and last_ok(s)
 
 
 def same(v, got) -> bool:
@@ -276,7 +278,7 @@ def shard_strings(ctx: Ctx, shard: int, nshards: int, max_len: int) -> Stats:
         if nt:
             seen_nt += 1
             if seen_nt % 4001 == 1 and len(st.samples) < 3:
-                st.samples.append({"value": s, "sites": "all 11"})
+                st.samples.append({"value": s, "sites": "all 13"})
 
     return st
 
@@ -479,7 +481,7 @@ def run(ctx: Ctx) -> Stats:
     total = Stats()
     total.merge(run_sharded(shard_strings, ctx, nshards=ctx.workers * 4, extra=(3,)))
     total.exhaustive = True
-    total.notes.append("strings of <=3 atoms x 11 sites enumerated completely (exhaustive flag refers to this part)")
+    total.notes.append("strings of <=3 atoms x 13 sites enumerated completely (exhaustive flag refers to this part)")
     total.merge(run_sharded(shard_hyp, ctx, extra=(ctx.pick(1500, 20000),)))
     total.merge(run_sharded(shard_write, ctx, extra=(ctx.pick(150, 2500),)))
     if not ctx.quick:
